@@ -10,6 +10,7 @@ require (
 	github.com/golang/protobuf v1.4.3
 	github.com/hashicorp/serf v0.8.3
 	golang.org/x/crypto v0.0.0-20210322153248-0c34fe9e7dc2
+	google.golang.org/protobuf v1.23.0
 )
 
 replace github.com/DOSNetwork/core => /repo
